@@ -19,7 +19,7 @@ func init() {
 		Run: runC18,
 		Explanation: "Decides structural necessary conditions of 'cluster job scripts reproduce commands, paths and environment values exactly': " +
 			"H1 the set of bytes appendShellSafeQuote escapes with a backslash (extracted from the comparisons in its code) is a superset of the bytes POSIX sh treats specially inside double quotes ($ ` \" \\), the value is wrapped in double quotes and every other byte is copied; no run of the input is copied verbatim past the switch unless the guards dominating the copy (strings.ContainsAny/IndexAny/IndexByte… with constant needles, also through a helper) exclude all four bytes, " +
-			"H2 in formatArgs every argv element, the command and every environment value reach the result only through appendShellSafeQuote; in jobScript STDOUT/STDERR/JOB_WORKDIR are shellSafeQuote results and CMD is the formatArgs result, " +
+			"H2 in formatArgs every argv element, the command and every environment value reach the result only through appendShellSafeQuote; in jobScript STDOUT/STDERR/JOB_WORKDIR are shellSafeQuote results and CMD is the formatArgs result; the substitution is a single pass (no replacement call scans the result of an earlier replacement), " +
 			"H3 in every jobmanagers/*.template* the __MRO_CMD__ placeholder stands in command position, outside quotes and outside # directives. " +
 			"NOT decided: invalid UTF-8 bytes (written as \\ooo, a documented extension), JOB_NAME/RESOURCES, each cluster's directive parser.",
 		Assumptions: append([]string{"POSIX XCU 2.2.3: inside double quotes exactly $, `, \" and \\ (and newline after \\) keep a special meaning"}, commonAssumptions...),
@@ -204,6 +204,7 @@ func runC18(c *an.Ctx) {
 			"the command line must be built from threadEnvs(...), shellCmd and argv as given")
 	}
 
+	c18SinglePass(c, jobScript)
 	// ---------------- H3 ----------------
 	files, _ := filepath.Glob(filepath.Join(p.Repo, "jobmanagers", "*.template*"))
 	sort.Strings(files)
